@@ -8,7 +8,8 @@ from ..check import Stream, run_check
 from ..core import e_list, e_pstr, s_bool, s_exc, s_pstr, s_val
 from .c10 import e_aval, mk_aval, s_state
 
-PATHS = ['json', 'pickle', 'sqlite', 'mongo', 'redis_json', 'redis_pickle', 'json_stored']
+PATHS = ['json', 'pickle', 'sqlite', 'mongo', 'redis_json', 'redis_pickle', 'json_stored', 'sqlite_updated',
+         'mongo_updated', 'redis_json_updated']
 
 
 def mk_policy_shared(p):
@@ -68,9 +69,17 @@ def through(path, pol, spec=None):
         return Policy.from_json(pol.to_json())
     if path == 'pickle':
         return pickle.loads(pickle.dumps(pol))
-    h = storelib.make_backend(path)
+    updated = path.endswith('_updated')
+    h = storelib.make_backend(path[:-len('_updated')] if updated else path)
     try:
-        h.storage.add(pol)
+        if updated:
+            # the uid first holds an unrelated policy of the OTHER kind, then the policy is written with update():
+            # what is read back must be the policy that was written - nothing of its predecessor
+            old = storelib.predecessor(pol)
+            h.storage.add(old)
+            h.storage.update(pol)
+        else:
+            h.storage.add(pol)
         # a sibling with the same content under another uid is stored, read and modified IN PLACE (context keys,
         # attribute dictionaries): what is read for `pol` afterwards must not be affected by that
         import copy
@@ -182,7 +191,7 @@ class RoundTripStream(Stream):
             if not sc['policies']:
                 continue
             p = dict(sc['policies'][0])
-            p['uid'] = rng.choice(['u1', 'p', 'é7']) if path == 'sqlite' or rng.random() < 0.6 else rng.choice([1, 42])
+            p['uid'] = rng.choice(['u1', 'p', 'é7']) if path.startswith('sqlite') or rng.random() < 0.6 else rng.choice([1, 42])
             p['description'] = rng.choice([None, 'text', 'é ж'])
             p['effect'] = rng.choice(['allow', 'allow', 'deny', 'ALLOW', None])
             probes = [sc['inquiry']]
@@ -220,7 +229,7 @@ class RoundTripStream(Stream):
         if obs.startswith('LOAD-FAILED'):
             return 'a stored policy could not be read back: %s' % obs
         want = probe(self._orig(c), c['probes'])
-        if c['path'] == 'sqlite':
+        if c['path'].startswith('sqlite'):
             # documented representation change of the SQL backend: uid is stored as a string
             want = want.replace('uid=' + s_val(specs.py(c['policy']['uid'])), 'uid=' + s_val(str(specs.py(c['policy']['uid']))), 1)
             obs_cmp = obs
